@@ -58,6 +58,8 @@ def run_digest(case, settings_obj=None, parts=False):
                 ser[name] = getattr(m, name)()
             ser["book"] = [list(m.get_buy_order_book().items()), list(m.get_sell_order_book().items())]
             ser["name"] = m.name
+            # attributes a user market class drew from its own (seeded) generator
+            ser["user_attrs"] = {k: getattr(m, k) for k in ("lot_size", "opening_noise") if hasattr(m, k)}
             feed("series", ser)
         for a in sim.agents:
             stats["agent_classes"].add(type(a).__name__)
